@@ -166,7 +166,7 @@ func rtAssert(in *Interp, fn *ssa.Function, args []value) value {
 				st.Violated++
 				in.candidate(id, "", "", in.model)
 			}
-			panic(&pathEnd{kind: endAssumeFail, msg: "assertion failed on every input of the path"})
+			// concretely false on this path: recorded; nothing is assumed, the path goes on
 		}
 	case *Term:
 		if v, ok := in.tab.cval(c); ok {
